@@ -432,8 +432,26 @@ impl Cli {
         args.extend(conf.cli_args());
         args.extend(["--buffered-chunks".into(), format!("{}", nbuf)]);
         let mut mfiles = vec![];
+        // a metadata file need not be a regular file either (process substitution, a named pipe, /dev/stdin): every third entry is
+        // delivered through a named pipe whose writer hands the value over in two pieces
+        let mut mfifos: Vec<(String, std::thread::JoinHandle<()>)> = vec![];
         for (i, (k, v)) in conf.metadata.iter().enumerate() {
-            if let (Ok(s), false) = (String::from_utf8(v.clone()), v.is_empty() || i % 2 == 1) {
+            if i % 3 == 2 && !v.is_empty() {
+                let p = format!("{}/meta_{}_{}.fifo", self.dir, tag, i);
+                let _ = std::fs::remove_file(&p);
+                assert!(Command::new("mkfifo").arg(&p).status().expect("mkfifo").success());
+                args.extend(["--metadata-file".into(), k.clone(), p.clone()]);
+                let (path, val) = (p.clone(), v.clone());
+                mfifos.push((p, std::thread::spawn(move || {
+                    if let Ok(mut f) = std::fs::OpenOptions::new().write(true).open(&path) {
+                        let cut = val.len() / 2;
+                        let _ = f.write_all(&val[..cut]);
+                        let _ = f.flush();
+                        std::thread::sleep(std::time::Duration::from_millis(2));
+                        let _ = f.write_all(&val[cut..]);
+                    }
+                })));
+            } else if let (Ok(s), false) = (String::from_utf8(v.clone()), v.is_empty() || i % 2 == 1) {
                 args.extend(["--metadata-value".into(), k.clone(), s]);
             } else {
                 let p = format!("{}/meta_{}_{}.bin", self.dir, tag, i);
@@ -521,6 +539,24 @@ impl Cli {
             }
             let _ = t.join();
             let _ = std::fs::remove_file(&fifo);
+        }
+        for (p, t) in mfifos {
+            // should the process never have opened the pipe, open it here so that the writer cannot block for ever
+            {
+                use std::os::unix::fs::OpenOptionsExt;
+                if let Ok(mut r) = std::fs::OpenOptions::new().read(true).custom_flags(0o4000).open(&p) {
+                    let mut sink = vec![0u8; 1 << 12];
+                    for _ in 0..200 {
+                        if t.is_finished() {
+                            break;
+                        }
+                        let _ = std::io::Read::read(&mut r, &mut sink);
+                        std::thread::sleep(std::time::Duration::from_millis(5));
+                    }
+                }
+            }
+            let _ = t.join();
+            let _ = std::fs::remove_file(&p);
         }
         let code = outp.status.code().unwrap_or(-1);
         let res = if code == 0 { "ok" } else if code == 101 { "panic" } else { "err" };
